@@ -24,7 +24,7 @@ from ..kernel import Discard, EventLog, InjectedFault, Streams, Violation, close
 PROP = "C10"
 
 EVIDENCE = {
-    "probes_expected": ["condensed-vs-explicit-compared", "restart-dropped-state", "uniform-knob-compared", "uniform-knob-assembly-compared", "planestrain-slab-compared", "axisymmetric-energy-compared", "fault:solver_inexact", "distorted-mesh"],
+    "probes_expected": ["condensed-vs-explicit-compared", "restart-dropped-state", "recreated-body-compared", "uniform-knob-compared", "uniform-knob-assembly-compared", "planestrain-slab-compared", "axisymmetric-energy-compared", "fault:solver_inexact", "distorted-mesh"],
     "clauses_sampled_only": [
         "plane strain vs unit-thickness slab (in-plane forces and stiffness) is a pure function of the state; evaluated at the converged states the histories reach",
         "axisymmetric nodal forces = derivative of the 2 pi R weighted strain energy: pure; evaluated by central differences of the energy at the reached states. Convergence of the axisymmetric model to a revolved 3D model is not attempted",
@@ -150,6 +150,26 @@ def run_condensed(doc, log):
     if d > 50 * conv_tol(doc, 1.0) / max(1.0, bulk / 100) + 1e-9:
         raise Violation(PROP, "condensed-vs-explicit", f"cell volume ratios differ from the explicit formulation by {d:.3e} (bulk {bulk})", site="SolidBodyNearlyIncompressible.J", fault=fkd)
     log.count("condensed-vs-explicit-compared")
+    # a body re-created on the converged displacement field (restart from saved displacements,
+    # post-processing): its condensed state must be that of the explicit formulation at once
+    mesh3 = world.build_mesh(doc["mesh"])
+    region3 = world.build_region(mesh3, doc.get("region"))
+    field3 = world.build_field(region3, doc["field"])
+    field3[0].values[:] = eng.callbacks[-1]["x"][0]
+    fresh = fem.SolidBodyNearlyIncompressible(world.build_umat(doc["items"][0]["umat"]), field3, bulk=bulk)
+    d = float(np.abs(fresh.results.state.p - p2).max())
+    if d > 50 * conv_tol(doc, pj_scale) + 1e-9:
+        raise Violation(PROP, "condensed-vs-explicit", f"a body created on the converged displacement field carries cell pressures that differ from the explicit formulation by {d:.3e} (scale {pj_scale:.2e})", site="SolidBodyNearlyIncompressible.recreated.p", fault=fkd)
+    d = float(np.abs(fresh.results.state.J - J2).max())
+    if d > 50 * conv_tol(doc, 1.0) / max(1.0, bulk / 100) + 1e-9:
+        raise Violation(PROP, "condensed-vs-explicit", f"a body created on the converged displacement field carries volume ratios that differ from the explicit formulation by {d:.3e}", site="SolidBodyNearlyIncompressible.recreated.J", fault=fkd)
+    Kf = fresh.assemble.matrix().toarray()
+    w.items[0].assemble.vector(field=w.items[0].field)
+    Ks = w.items[0].assemble.matrix().toarray()
+    ok, rel = close_exact_twin(Kf, Ks, rtol=1e-6, atol=1e-7 * float(np.abs(Ks).max()))
+    if not ok:
+        raise Violation(PROP, "condensed-vs-explicit", f"matrix of a body created on the converged displacement field differs from the settled body's (rel {rel:.2e})", site="SolidBodyNearlyIncompressible.recreated.matrix", fault=fkd)
+    log.count("recreated-body-compared")
     if doc["mesh"].get("perturb"):
         log.count("distorted-mesh")
     # restart that drops the condensed state ---------------------------------------------------------
